@@ -59,10 +59,43 @@ def partial_case(rng, fmt=None, under=None):
             r, c = rng.randrange(nr), rng.randrange(nc)
             an[r][c] += rng.choice([-4, -1, 1, 2, 6])
     method = rng.choice(['fd', 'fd', 'cs'])
+    x = [rng.randrange(-4, 5) for _ in range(nc)]
+    quad = None
+    const = fmt != 'csr' and rng.random() < 0.2      # constant declared partials, no compute_partials
+    if not const and rng.random() < 0.5:            # nonlinear: the approximation depends on the step
+        quad = [[rng.choice([-4, -2, 2, 4, 6]) if (fd[r][c] != 0 and rng.random() < 0.7) else 0 for c in range(nc)]
+                for r in range(nr)]
+        if not wrong:    # exact analytic jacobian at x: fd/2 + quad/2 * 2x  (in halves: fd + quad*2x)
+            an = [[fd[r][c] + quad[r][c] * 2 * x[c] for c in range(nc)] for r in range(nr)]
+    nst = 2 if rng.random() < 0.4 else 1
     return {'kind': 'partials', 'fmt': fmt, 'fd': fd, 'an': an, 'pat': pat, 'method': method,
-            'form': rng.choice(['forward', 'backward', 'central']), 'stepexp': rng.randrange(0, 5),
-            'tolexp': rng.choice([20, 10, 3, 0]), 'x': [rng.randrange(-4, 5) for _ in range(nc)],
-            'repeat': 2 if rng.random() < 0.15 else 1}
+            'form': rng.choice(['forward', 'backward', 'central']),
+            'stepexps': [rng.randrange(0, 5) for _ in range(nst)],
+            'ov': rng.randrange(0, 5) if rng.random() < 0.2 else None,
+            'quad': quad, 'const': const, 'hist': rng.random() < 0.4,
+            'tolexp': rng.choice([20, 10, 3, 0]), 'x': x,
+            'repeat': 2 if rng.random() < 0.35 else 1}
+
+
+def step_of(c, k):
+    e = c['ov'] if c.get('ov') is not None else c['stepexps'][k]
+    return Fraction(1, 2 ** e)
+
+
+def expected_fd(c, k):
+    """exact approximated jacobian (Fractions) of y = FD x + Q x^2 at x for the k-th step"""
+    fd = c['fd']
+    nr, nc = len(fd), len(fd[0])
+    if c.get('quad') is None:
+        return [[Fraction(fd[r][k2], 2) for k2 in range(nc)] for r in range(nr)]
+    sgn = 0 if c['method'] == 'cs' else {'forward': 1, 'backward': -1, 'central': 0}[c['form']]
+    h = step_of(c, k)
+    return [[Fraction(fd[r][k2], 2) + Fraction(c['quad'][r][k2], 2) * (2 * c['x'][k2] + sgn * h)
+             for k2 in range(nc)] for r in range(nr)]
+
+
+def qmf(m):
+    return '[%s]' % '; '.join('[%s]' % '; '.join(qlit(v) for v in row) for row in m)
 
 
 def totals_case(rng):
@@ -89,8 +122,10 @@ class C13(Spec):
     impl_jobs = 8
     rule = ('generated linear components (1..5 x 1..5, half-integer jacobians) with correct, wrong and under-declared '
             'partials in every declaration format {dense, rows/cols, diagonal, coo, csr, csc} x {fd forward/backward/'
-            'central, cs} x steps 2^0..2^-4 x tolerances, checked through the real check_partials (some twice in a '
-            'row), plus check_totals in fwd and rev mode; a case is non-trivial when distinct')
+            'central, cs} x steps 2^0..2^-4 x tolerances, linear and quadratic (step-dependent approximation), single steps and '
+            'step lists, per-variable step overrides, constant declared partials without compute_partials, histories '
+            'compute_totals / check_partials / check_partials / compute_totals, checked through the real check_partials, '
+            'plus check_totals in fwd and rev mode; a case is non-trivial when distinct')
     assumptions = ['declared patterns have no duplicate (row, col) entries',
                    'directional and matrix-free checks are outside the model (oracle not applied to them)']
 
@@ -119,26 +154,36 @@ class C13(Spec):
         mask = [[False] * nc for _ in range(nr)]
         for r, k in c['pat']:
             mask[r][k] = True
-        return '(run_partials true %d %s %d %d %s %s %s %s %s)' % (
-            KINDS[c['fmt']], entries(c['pat']), nr, nc, THR, qm(c['fd']), qm(c['an'], mask), atol, atol)
+        fds = '[%s]' % '; '.join(qmf(expected_fd(c, k)) for k in range(len(c['stepexps'])))
+        return '(run_partials_steps true %d %s %d %d %s %s %s %s %s)' % (
+            KINDS[c['fmt']], entries(c['pat']), nr, nc, THR, fds, qm(c['an'], mask), atol, atol)
 
     def shrink(self, c):
         if c['kind'] != 'partials':
             return
-        if c.get('repeat', 1) > 1:
+        if c.get('repeat', 1) > 1 and not c.get('const'):
             yield dict(c, repeat=1)
-        if c['an'] != c['fd']:
-            yield dict(c, an=[list(r) for r in c['fd']])
+        if c.get('hist') and not c.get('const'):
+            yield dict(c, hist=False)
+        if c.get('ov') is not None:
+            yield dict(c, ov=None)
+        if len(c['stepexps']) > 1 and c['fmt'] != 'dense':
+            yield dict(c, stepexps=c['stepexps'][-1:])
+        if c.get('quad') is not None and len(c['stepexps']) == 1:
+            yield dict(c, quad=None)
         fd = c['fd']
         nz = [(r, k) for r in range(len(fd)) for k in range(len(fd[0])) if fd[r][k] != 0]
         inpat = set(map(tuple, c['pat']))
-        for r, k in nz[:12]:
-            if (r, k) not in inpat or c['fmt'] == 'dense':
+        for r, k in nz[:10]:
+            if (r, k) not in inpat:
                 B = [list(x) for x in fd]
                 B[r][k] = 0
                 A = [list(x) for x in c['an']]
                 A[r][k] = 0
-                yield dict(c, fd=B, an=A)
+                Qm = None if c.get('quad') is None else [list(x) for x in c['quad']]
+                if Qm is not None:
+                    Qm[r][k] = 0
+                yield dict(c, fd=B, an=A, quad=Qm)
 
 
 def main(tier):
